@@ -1,0 +1,400 @@
+//go:build verif
+
+// Contracts for the verifier in /verif (comment-only file; compiled only with -tags verif).
+// Extension decoders `Write(b []byte) (int, error)`: properties C07 (arbitrary input bytes give an
+// error or a spec, never a panic: every contract below has `requires e != nil` only, so all bounds,
+// nil, type-assertion and panic obligations are discharged for arbitrary b) and C08/C06 (which wire
+// bodies are accepted and what the decoded fields are in terms of the input bytes).
+// The cryptobyte.String readers are assumed as in /verif/contracts/trusted/cryptobyte.vc.
+
+package tls
+
+// ungrease16 is what unGREASEUint16 computes (grease16 is defined in verif_contracts_leaf.go).
+//@ spec ungrease16(v) = ite(grease16(v), 0x0a0a, v)
+//@ spec be16(b, i) = b[i]*256 + b[i+1]
+
+// ---------------------------------------------------------------------------------------------
+// helpers of handshake_messages.go: the cryptobyte readers retargeted to *[]byte
+
+//@ func readUint8LengthPrefixed
+//@   property C07 C08 C06
+//@   let n = (*s)[0]
+//@   requires s != nil && out != nil
+//@   modifies *s, *out
+//@   ensures nolen: len(old(*s)) < 1 ==> !ret && *s == old(*s) && *out == old(*out)
+//@   ensures short: len(old(*s)) >= 1 && len(old(*s)) < 1 + n ==> !ret && (s != out ==> *out == old(*out)) && *s == old((*s)[1:])
+//@   ensures ok: len(old(*s)) >= 1 + n ==> ret && *out == old((*s)[1:1+n]) && (s != out ==> *s == old((*s)[1+n:]))
+
+//@ func readUint16LengthPrefixed
+//@   property C07 C08 C06
+//@   let n = (*s)[0]*256 + (*s)[1]
+//@   requires s != nil && out != nil
+//@   modifies *s, *out
+//@   ensures nolen: len(old(*s)) < 2 ==> !ret && *s == old(*s) && *out == old(*out)
+//@   ensures short: len(old(*s)) >= 2 && len(old(*s)) < 2 + n ==> !ret && (s != out ==> *out == old(*out)) && *s == old((*s)[2:])
+//@   ensures ok: len(old(*s)) >= 2 + n ==> ret && *out == old((*s)[2:2+n]) && (s != out ==> *s == old((*s)[2+n:]))
+
+// ---------------------------------------------------------------------------------------------
+// decoders without loops
+
+// The body is ignored, nothing is stored (C08: the extension is re-encoded from its own fields).
+//@ func (*SCTExtension).Write
+//@   property C07 C08 C06
+//@   requires e != nil
+//@   pure
+//@   ensures ret0 == 0 && ret1 == nil
+
+//@ func (*ExtendedMasterSecretExtension).Write
+//@   property C07 C08 C06
+//@   requires e != nil
+//@   pure
+//@   ensures ret0 == 0 && ret1 == nil
+
+//@ func (*NPNExtension).Write
+//@   property C07 C08 C06
+//@   requires e != nil
+//@   pure
+//@   ensures ret0 == 0 && ret1 == nil
+
+//@ func (*FakeChannelIDExtension).Write
+//@   property C07 C08 C06
+//@   requires e != nil
+//@   pure
+//@   ensures ret0 == 0 && ret1 == nil
+
+// C08 normalisation: session-ticket contents are dropped (Session, Ticket, Initialized keep their values).
+//@ func (*SessionTicketExtension).Write
+//@   property C07 C08 C06
+//@   requires e != nil
+//@   pure
+//@   ensures ret0 == 0 && ret1 == nil
+
+// C08 normalisation: the renegotiation-info body is ignored (RenegotiatedConnection keeps its value).
+//@ func (*RenegotiationInfoExtension).Write
+//@   property C07 C08 C06
+//@   requires e != nil
+//@   modifies e.Renegotiation
+//@   ensures ret0 == len(b) && ret1 == nil
+//@   ensures mode: e.Renegotiation == RenegotiateOnceAsClient
+
+// C08 normalisation: padding is recomputed by policy (PaddingLen, WillPad keep their values).
+//@ func (*UtlsPaddingExtension).Write
+//@   property C07 C08 C06
+//@   requires e != nil
+//@   modifies e.GetPaddingLen
+//@   ensures ret0 == 0 && ret1 == nil
+//@   ensures policy: e.GetPaddingLen != nil
+
+// C08 normalisation: the GREASE extension id becomes the placeholder; the body is copied.
+//@ func (*UtlsGREASEExtension).Write
+//@   property C07 C08 C06
+//@   requires e != nil
+//@   modifies e.Value, e.Body
+//@   ensures ret0 == len(b) && ret1 == nil
+//@   ensures value: e.Value == 0x0a0a
+//@   ensures body: fresh(e.Body) && len(e.Body) == len(b) && forall j in 0..len(b): e.Body[j] == b[j]
+//@   ensures input: unchanged(b)
+
+//@ func (*FakeRecordSizeLimitExtension).Write
+//@   property C07 C08 C06
+//@   requires e != nil
+//@   modifies e.Limit
+//@   ensures accept: ret1 == nil <==> len(b) >= 2
+//@   ensures n: ret1 == nil ==> ret0 == len(b)
+//@   ensures nerr: ret1 != nil ==> ret0 == 0 && e.Limit == old(e.Limit)
+//@   ensures limit: ret1 == nil ==> e.Limit == b[0]*256 + b[1]
+
+// token_binding: major(1) minor(1) key_parameters<0..255>; trailing bytes are tolerated.
+// KeyParameters ALIASES the input (no copy): e.KeyParameters == b[3:3+b[2]], capacity cap(b)-3.
+//@ func (*FakeTokenBindingExtension).Write
+//@   property C07 C08 C06
+//@   requires e != nil
+//@   modifies e.MajorVersion, e.MinorVersion, e.KeyParameters
+//@   ensures accept: ret1 == nil <==> len(b) >= 3 && len(b) >= 3 + b[2]
+//@   ensures n: ret1 == nil ==> ret0 == len(b)
+//@   ensures nerr: ret1 != nil ==> ret0 == 0 && e.KeyParameters == old(e.KeyParameters)
+//@   ensures fields: ret1 == nil ==> e.MajorVersion == b[0] && e.MinorVersion == b[1] && e.KeyParameters == b[3:3+b[2]]
+
+// ocsp status_request: status_type(1) responder_id_list<0..2^16-1> request_extensions<0..2^16-1>.
+// Both vectors are skipped, trailing bytes after the second vector are tolerated, nothing is stored.
+//@ spec srWire(b) = len(b) >= 3 && len(b) >= 5 + (b[1]*256 + b[2]) && len(b) >= 5 + (b[1]*256 + b[2]) + (b[3 + (b[1]*256 + b[2])]*256 + b[4 + (b[1]*256 + b[2])])
+//@ func (*StatusRequestExtension).Write
+//@   property C07 C08 C06
+//@   requires e != nil
+//@   pure
+//@   ensures n: ret0 == len(b)
+//@   ensures accept: ret1 == nil <==> srWire(b) && b[0] == 1
+
+// ec_point_formats<1..255>; trailing bytes tolerated.  SupportedPoints ALIASES the input (no copy).
+//@ func (*SupportedPointsExtension).Write
+//@   property C07 C08 C06
+//@   requires e != nil
+//@   modifies e.SupportedPoints
+//@   ensures accept: ret1 == nil <==> len(b) >= 1 && b[0] > 0 && len(b) >= 1 + b[0]
+//@   ensures n: ret1 == nil ==> ret0 == len(b)
+//@   ensures nerr: ret1 != nil ==> ret0 == 0 && e.SupportedPoints == old(e.SupportedPoints)
+//@   ensures points: ret1 == nil ==> e.SupportedPoints == b[1:1+b[0]]
+
+// psk_key_exchange_modes<0..255> (an empty list is accepted); Modes ALIASES the input (no copy).
+//@ func (*PSKKeyExchangeModesExtension).Write
+//@   property C07 C08 C06
+//@   requires e != nil
+//@   modifies e.Modes
+//@   ensures accept: ret1 == nil <==> len(b) >= 1 && len(b) >= 1 + b[0]
+//@   ensures n: ret1 == nil ==> ret0 == len(b)
+//@   ensures nerr: ret1 != nil ==> ret0 == 0 && e.Modes == old(e.Modes)
+//@   ensures modes: ret1 == nil ==> e.Modes == b[1:1+b[0]]
+
+// ---------------------------------------------------------------------------------------------
+// decoders with a loop over 16-bit items (append to a fresh slice)
+
+// named_group_list<2..2^16-1>; GREASE groups become the placeholder; trailing bytes tolerated.
+//@ func (*SupportedCurvesExtension).Write
+//@   property C07 C08 C06
+//@   let n = b[0]*256 + b[1]
+//@   requires e != nil
+//@   modifies e.Curves
+//@   ensures accept: ret1 == nil <==> len(b) >= 2 && n > 0 && len(b) >= 2 + n && n % 2 == 0
+//@   ensures n: ret1 == nil ==> ret0 == len(b)
+//@   ensures nerr: ret1 != nil ==> ret0 == 0 && e.Curves == old(e.Curves)
+//@   ensures len: ret1 == nil ==> len(e.Curves) == n / 2 && fresh(e.Curves)
+//@   ensures elems: ret1 == nil ==> forall j in 0..n/2: e.Curves[j] == ungrease16(b[2+2*j]*256 + b[3+2*j])
+//@   ensures input: unchanged(b)
+//@   loop 0 invariant len(b) >= 2 + n && n > 0
+//@   loop 0 invariant arr(curvesBytes) == arr(b) && off(curvesBytes) == off(b) + 2 + 2*len(curves) && len(curvesBytes) == n - 2*len(curves) && len(curvesBytes) >= 0
+//@   loop 0 invariant fresh(curves)
+//@   loop 0 invariant forall j in 0..len(curves): curves[j] == ungrease16(b[2+2*j]*256 + b[3+2*j])
+
+// supported_signature_algorithms<2..2^16-2>; values are stored as they are; trailing bytes tolerated.
+//@ func (*SignatureAlgorithmsExtension).Write
+//@   property C07 C08 C06
+//@   let n = b[0]*256 + b[1]
+//@   requires e != nil
+//@   modifies e.SupportedSignatureAlgorithms
+//@   ensures accept: ret1 == nil <==> len(b) >= 2 && n > 0 && len(b) >= 2 + n && n % 2 == 0
+//@   ensures n: ret1 == nil ==> ret0 == len(b)
+//@   ensures nerr: ret1 != nil ==> ret0 == 0 && e.SupportedSignatureAlgorithms == old(e.SupportedSignatureAlgorithms)
+//@   ensures len: ret1 == nil ==> len(e.SupportedSignatureAlgorithms) == n / 2 && fresh(e.SupportedSignatureAlgorithms)
+//@   ensures elems: ret1 == nil ==> forall j in 0..n/2: e.SupportedSignatureAlgorithms[j] == b[2+2*j]*256 + b[3+2*j]
+//@   ensures input: unchanged(b)
+//@   loop 0 invariant len(b) >= 2 + n && n > 0
+//@   loop 0 invariant arr(sigAndAlgs) == arr(b) && off(sigAndAlgs) == off(b) + 2 + 2*len(supportedSignatureAlgorithms) && len(sigAndAlgs) == n - 2*len(supportedSignatureAlgorithms) && len(sigAndAlgs) >= 0
+//@   loop 0 invariant fresh(supportedSignatureAlgorithms)
+//@   loop 0 invariant forall j in 0..len(supportedSignatureAlgorithms): supportedSignatureAlgorithms[j] == b[2+2*j]*256 + b[3+2*j]
+
+//@ func (*SignatureAlgorithmsCertExtension).Write
+//@   property C07 C08 C06
+//@   let n = b[0]*256 + b[1]
+//@   requires e != nil
+//@   modifies e.SupportedSignatureAlgorithms
+//@   ensures accept: ret1 == nil <==> len(b) >= 2 && n > 0 && len(b) >= 2 + n && n % 2 == 0
+//@   ensures n: ret1 == nil ==> ret0 == len(b)
+//@   ensures nerr: ret1 != nil ==> ret0 == 0 && e.SupportedSignatureAlgorithms == old(e.SupportedSignatureAlgorithms)
+//@   ensures len: ret1 == nil ==> len(e.SupportedSignatureAlgorithms) == n / 2 && fresh(e.SupportedSignatureAlgorithms)
+//@   ensures elems: ret1 == nil ==> forall j in 0..n/2: e.SupportedSignatureAlgorithms[j] == b[2+2*j]*256 + b[3+2*j]
+//@   ensures input: unchanged(b)
+//@   loop 0 invariant len(b) >= 2 + n && n > 0
+//@   loop 0 invariant arr(sigAndAlgs) == arr(b) && off(sigAndAlgs) == off(b) + 2 + 2*len(supportedSignatureAlgorithms) && len(sigAndAlgs) == n - 2*len(supportedSignatureAlgorithms) && len(sigAndAlgs) >= 0
+//@   loop 0 invariant fresh(supportedSignatureAlgorithms)
+//@   loop 0 invariant forall j in 0..len(supportedSignatureAlgorithms): supportedSignatureAlgorithms[j] == b[2+2*j]*256 + b[3+2*j]
+
+//@ func (*FakeDelegatedCredentialsExtension).Write
+//@   property C07 C08 C06
+//@   let n = b[0]*256 + b[1]
+//@   requires e != nil
+//@   modifies e.SupportedSignatureAlgorithms
+//@   ensures accept: ret1 == nil <==> len(b) >= 2 && n > 0 && len(b) >= 2 + n && n % 2 == 0
+//@   ensures n: ret1 == nil ==> ret0 == len(b)
+//@   ensures nerr: ret1 != nil ==> ret0 == 0 && e.SupportedSignatureAlgorithms == old(e.SupportedSignatureAlgorithms)
+//@   ensures len: ret1 == nil ==> len(e.SupportedSignatureAlgorithms) == n / 2 && fresh(e.SupportedSignatureAlgorithms)
+//@   ensures elems: ret1 == nil ==> forall j in 0..n/2: e.SupportedSignatureAlgorithms[j] == b[2+2*j]*256 + b[3+2*j]
+//@   ensures input: unchanged(b)
+//@   loop 0 invariant len(b) >= 2 + n && n > 0
+//@   loop 0 invariant arr(supportedAlgs) == arr(b) && off(supportedAlgs) == off(b) + 2 + 2*len(supportedSignatureAlgorithms) && len(supportedAlgs) == n - 2*len(supportedSignatureAlgorithms) && len(supportedAlgs) >= 0
+//@   loop 0 invariant fresh(supportedSignatureAlgorithms)
+//@   loop 0 invariant forall j in 0..len(supportedSignatureAlgorithms): supportedSignatureAlgorithms[j] == b[2+2*j]*256 + b[3+2*j]
+
+// versions<2..254> (8-bit length); GREASE versions become the placeholder; trailing bytes tolerated.
+//@ func (*SupportedVersionsExtension).Write
+//@   property C07 C08 C06
+//@   let n = b[0]
+//@   requires e != nil
+//@   modifies e.Versions
+//@   ensures accept: ret1 == nil <==> len(b) >= 1 && n > 0 && len(b) >= 1 + n && n % 2 == 0
+//@   ensures n: ret1 == nil ==> ret0 == len(b)
+//@   ensures nerr: ret1 != nil ==> ret0 == 0 && e.Versions == old(e.Versions)
+//@   ensures len: ret1 == nil ==> len(e.Versions) == n / 2 && fresh(e.Versions)
+//@   ensures elems: ret1 == nil ==> forall j in 0..n/2: e.Versions[j] == ungrease16(b[1+2*j]*256 + b[2+2*j])
+//@   ensures input: unchanged(b)
+//@   loop 0 invariant len(b) >= 1 + n && n > 0
+//@   loop 0 invariant arr(versList) == arr(b) && off(versList) == off(b) + 1 + 2*len(supportedVersions) && len(versList) == n - 2*len(supportedVersions) && len(versList) >= 0
+//@   loop 0 invariant fresh(supportedVersions)
+//@   loop 0 invariant forall j in 0..len(supportedVersions): supportedVersions[j] == ungrease16(b[1+2*j]*256 + b[2+2*j])
+
+// compress_certificate algorithms<0..255> (8-bit length; the EMPTY list is accepted although RFC 8879
+// requires at least one algorithm); trailing bytes tolerated.
+//@ func (*UtlsCompressCertExtension).Write
+//@   property C07 C08 C06
+//@   let n = b[0]
+//@   requires e != nil
+//@   modifies e.Algorithms
+//@   ensures accept: ret1 == nil <==> len(b) >= 1 && len(b) >= 1 + n && n % 2 == 0
+//@   ensures n: ret1 == nil ==> ret0 == len(b)
+//@   ensures nerr: ret1 != nil ==> ret0 == 0 && e.Algorithms == old(e.Algorithms)
+//@   ensures len: ret1 == nil ==> len(e.Algorithms) == n / 2 && fresh(e.Algorithms)
+//@   ensures elems: ret1 == nil ==> forall j in 0..n/2: e.Algorithms[j] == b[1+2*j]*256 + b[2+2*j]
+//@   ensures input: unchanged(b)
+//@   loop 0 invariant len(b) >= 1 + n
+//@   loop 0 invariant arr(*methodsRaw) == arr(b) && off(*methodsRaw) == off(b) + 1 + 2*len(methods) && len(*methodsRaw) == n - 2*len(methods) && len(*methodsRaw) >= 0
+//@   loop 0 invariant fresh(methods)
+//@   loop 0 invariant forall j in 0..len(methods): methods[j] == b[1+2*j]*256 + b[2+2*j]
+
+// ---------------------------------------------------------------------------------------------
+// decoders that walk a list of variable-length entries
+
+// server_name_list<1..2^16-1> of { name_type(1), host_name<1..2^16-1> }.  C08 normalisation: the SNI
+// name is dropped: Write stores NOTHING (pure), it only validates.  ret0 == len(b) also on error.
+// The walk over the entries has no closed form in the contract language; stated are the framing,
+// and the complete accept condition for the usual body that consists of exactly one entry
+// (l0 = length of the first name, n == 3 + l0): the name must be non-empty and, if it is a
+// host_name (type 0), must not end in '.' (46).
+//@ func (*SNIExtension).Write
+//@   property C07 C08 C06
+//@   let n = b[0]*256 + b[1]
+//@   let l0 = b[3]*256 + b[4]
+//@   requires e != nil
+//@   pure
+//@   ensures n: ret0 == len(b)
+//@   ensures framing: ret1 == nil ==> len(b) >= 2 && n >= 4 && len(b) >= 2 + n && l0 > 0 && n >= 3 + l0
+//@   ensures single: len(b) >= 2 && len(b) >= 2 + n && n >= 3 && n == 3 + l0 ==> (ret1 == nil <==> l0 > 0 && (b[2] != 0 || b[4+l0] != 46))
+//@   loop 0 invariant len(b) >= 2 + n && n > 0
+//@   loop 0 invariant arr(nameList) == arr(b) && off(nameList) >= off(b) + 2 && off(nameList) + len(nameList) == off(b) + 2 + n
+//@   loop 0 invariant off(nameList) == off(b) + 2 ==> len(serverName) == 0
+//@   loop 0 invariant off(nameList) == off(b) + 2 || (n >= 3 + l0 && l0 > 0 && off(nameList) >= off(b) + 5 + l0 && (b[2] != 0 || b[4+l0] != 46))
+
+// protocol_name_list<2..2^16-1> of opaque<1..255>; trailing bytes tolerated.
+// The entry offsets have no closed form, so the walk is specified relative to an uninterpreted
+// function: for EVERY function alpnPos with alpnPos(0) == 2 and alpnPos(j+1) == alpnPos(j) + 1 +
+// b[alpnPos(j)] (alpnWalk: alpnPos(j) is the offset of the length byte of entry j), an accepted body
+// ends exactly at an entry boundary (walk_len) and name j is the non-empty content of entry j
+// (walk_elems).  Also: framing, the first name in closed form, the one-entry list completely.
+//@ uf alpnPos(Int) Int
+//@ spec alpnWalk(b) = alpnPos(0) == 2 && forall j in 0..len(b): alpnPos(j+1) == alpnPos(j) + 1 + b[alpnPos(j)]
+//@ func (*ALPNExtension).Write
+//@   property C07 C08 C06
+//@   let n = b[0]*256 + b[1]
+//@   requires e != nil
+//@   modifies e.AlpnProtocols
+//@   ensures n: ret1 == nil ==> ret0 == len(b)
+//@   ensures nerr: ret1 != nil ==> ret0 == 0 && e.AlpnProtocols == old(e.AlpnProtocols)
+//@   ensures framing: ret1 == nil ==> len(b) >= 2 && n >= 2 && len(b) >= 2 + n && b[2] > 0 && n >= 1 + b[2]
+//@   ensures count: ret1 == nil ==> len(e.AlpnProtocols) >= 1 && 2 * len(e.AlpnProtocols) <= n && fresh(e.AlpnProtocols)
+//@   ensures first: ret1 == nil ==> e.AlpnProtocols[0] == string(b[3:3+b[2]])
+//@   ensures walk_len: alpnWalk(b) && ret1 == nil ==> alpnPos(len(e.AlpnProtocols)) == 2 + n
+//@   ensures walk_elems: alpnWalk(b) && ret1 == nil ==> forall j in 0..len(e.AlpnProtocols): b[alpnPos(j)] > 0 && e.AlpnProtocols[j] == string(b[alpnPos(j)+1:alpnPos(j)+1+b[alpnPos(j)]])
+//@   ensures single: len(b) >= 2 && len(b) >= 2 + n && n >= 1 && n == 1 + b[2] ==> (ret1 == nil <==> b[2] > 0) && (ret1 == nil ==> len(e.AlpnProtocols) == 1)
+//@   ensures input: unchanged(b)
+//@   loop 0 invariant len(b) >= 2 + n && n > 0
+//@   loop 0 invariant arr(protoList) == arr(b) && off(protoList) >= off(b) + 2 + 2*len(alpnProtocols) && off(protoList) + len(protoList) == off(b) + 2 + n
+//@   loop 0 invariant fresh(alpnProtocols)
+//@   loop 0 invariant off(protoList) == off(b) + 2 <==> len(alpnProtocols) == 0
+//@   loop 0 invariant len(alpnProtocols) >= 1 ==> b[2] > 0 && n >= 1 + b[2] && off(protoList) >= off(b) + 3 + b[2] && alpnProtocols[0] == string(b[3:3+b[2]])
+//@   loop 0 invariant len(alpnProtocols) >= 2 ==> off(protoList) > off(b) + 3 + b[2]
+//@   loop 0 invariant alpnWalk(b) ==> off(protoList) == off(b) + alpnPos(len(alpnProtocols))
+//@   loop 0 invariant alpnWalk(b) ==> forall j in 0..len(alpnProtocols): b[alpnPos(j)] > 0 && alpnProtocols[j] == string(b[alpnPos(j)+1:alpnPos(j)+1+b[alpnPos(j)]])
+
+// ALPS (application_settings): the same wire format and walk as ALPN (alpnPos / alpnWalk above);
+// the names are returned (ret0) instead of stored.
+//@ func (*applicationSettingsExtension).Write
+//@   property C07 C08 C06
+//@   let n = b[0]*256 + b[1]
+//@   requires e != nil
+//@   modifies nothing
+//@   ensures n: ret2 == nil ==> ret1 == len(b)
+//@   ensures nerr: ret2 != nil ==> ret1 == 0 && isnil(ret0)
+//@   ensures framing: ret2 == nil ==> len(b) >= 2 && n >= 2 && len(b) >= 2 + n && b[2] > 0 && n >= 1 + b[2]
+//@   ensures count: ret2 == nil ==> len(ret0) >= 1 && 2 * len(ret0) <= n && fresh(ret0)
+//@   ensures first: ret2 == nil ==> ret0[0] == string(b[3:3+b[2]])
+//@   ensures walk_len: alpnWalk(b) && ret2 == nil ==> alpnPos(len(ret0)) == 2 + n
+//@   ensures walk_elems: alpnWalk(b) && ret2 == nil ==> forall j in 0..len(ret0): b[alpnPos(j)] > 0 && ret0[j] == string(b[alpnPos(j)+1:alpnPos(j)+1+b[alpnPos(j)]])
+//@   ensures single: len(b) >= 2 && len(b) >= 2 + n && n >= 1 && n == 1 + b[2] ==> (ret2 == nil <==> b[2] > 0) && (ret2 == nil ==> len(ret0) == 1)
+//@   ensures input: unchanged(b)
+//@   loop 0 invariant len(b) >= 2 + n && n > 0
+//@   loop 0 invariant arr(protoList) == arr(b) && off(protoList) >= off(b) + 2 + 2*len(alpnProtocols) && off(protoList) + len(protoList) == off(b) + 2 + n
+//@   loop 0 invariant fresh(alpnProtocols)
+//@   loop 0 invariant off(protoList) == off(b) + 2 <==> len(alpnProtocols) == 0
+//@   loop 0 invariant len(alpnProtocols) >= 1 ==> b[2] > 0 && n >= 1 + b[2] && off(protoList) >= off(b) + 3 + b[2] && alpnProtocols[0] == string(b[3:3+b[2]])
+//@   loop 0 invariant len(alpnProtocols) >= 2 ==> off(protoList) > off(b) + 3 + b[2]
+//@   loop 0 invariant alpnWalk(b) ==> off(protoList) == off(b) + alpnPos(len(alpnProtocols))
+//@   loop 0 invariant alpnWalk(b) ==> forall j in 0..len(alpnProtocols): b[alpnPos(j)] > 0 && alpnProtocols[j] == string(b[alpnPos(j)+1:alpnPos(j)+1+b[alpnPos(j)]])
+
+// The two public wrappers store the result; on a malformed body SupportedProtocols is reset to nil
+// (unlike the other decoders, which leave their fields alone on error).
+//@ func (*ApplicationSettingsExtension).Write
+//@   property C07 C08 C06
+//@   let n = b[0]*256 + b[1]
+//@   requires e != nil
+//@   modifies e.SupportedProtocols
+//@   ensures n: ret1 == nil ==> ret0 == len(b)
+//@   ensures nerr: ret1 != nil ==> ret0 == 0 && isnil(e.SupportedProtocols)
+//@   ensures framing: ret1 == nil ==> len(b) >= 2 && n >= 2 && len(b) >= 2 + n && b[2] > 0 && n >= 1 + b[2]
+//@   ensures count: ret1 == nil ==> len(e.SupportedProtocols) >= 1 && 2 * len(e.SupportedProtocols) <= n && fresh(e.SupportedProtocols)
+//@   ensures first: ret1 == nil ==> e.SupportedProtocols[0] == string(b[3:3+b[2]])
+//@   ensures walk_len: alpnWalk(b) && ret1 == nil ==> alpnPos(len(e.SupportedProtocols)) == 2 + n
+//@   ensures walk_elems: alpnWalk(b) && ret1 == nil ==> forall j in 0..len(e.SupportedProtocols): b[alpnPos(j)] > 0 && e.SupportedProtocols[j] == string(b[alpnPos(j)+1:alpnPos(j)+1+b[alpnPos(j)]])
+//@   ensures single: len(b) >= 2 && len(b) >= 2 + n && n >= 1 && n == 1 + b[2] ==> (ret1 == nil <==> b[2] > 0) && (ret1 == nil ==> len(e.SupportedProtocols) == 1)
+//@   ensures input: unchanged(b)
+
+//@ func (*ApplicationSettingsExtensionNew).Write
+//@   property C07 C08 C06
+//@   let n = b[0]*256 + b[1]
+//@   requires e != nil
+//@   modifies e.SupportedProtocols
+//@   ensures n: ret1 == nil ==> ret0 == len(b)
+//@   ensures nerr: ret1 != nil ==> ret0 == 0 && isnil(e.SupportedProtocols)
+//@   ensures framing: ret1 == nil ==> len(b) >= 2 && n >= 2 && len(b) >= 2 + n && b[2] > 0 && n >= 1 + b[2]
+//@   ensures count: ret1 == nil ==> len(e.SupportedProtocols) >= 1 && 2 * len(e.SupportedProtocols) <= n && fresh(e.SupportedProtocols)
+//@   ensures first: ret1 == nil ==> e.SupportedProtocols[0] == string(b[3:3+b[2]])
+//@   ensures walk_len: alpnWalk(b) && ret1 == nil ==> alpnPos(len(e.SupportedProtocols)) == 2 + n
+//@   ensures walk_elems: alpnWalk(b) && ret1 == nil ==> forall j in 0..len(e.SupportedProtocols): b[alpnPos(j)] > 0 && e.SupportedProtocols[j] == string(b[alpnPos(j)+1:alpnPos(j)+1+b[alpnPos(j)]])
+//@   ensures single: len(b) >= 2 && len(b) >= 2 + n && n >= 1 && n == 1 + b[2] ==> (ret1 == nil <==> b[2] > 0) && (ret1 == nil ==> len(e.SupportedProtocols) == 1)
+//@   ensures input: unchanged(b)
+
+// client_shares<0..2^16-1> of { group(2), key_exchange<1..2^16-1> } (the empty list is accepted);
+// trailing bytes tolerated.  C08 normalisations: a GREASE group becomes the placeholder and keeps its
+// key_exchange bytes (Data ALIASES the input, no copy); the data of every other group is dropped (nil).
+// ksPos(j) is the offset of entry j (ksWalk), as alpnPos for ALPN.
+//@ uf ksPos(Int) Int
+//@ spec ksWalk(b) = ksPos(0) == 2 && forall j in 0..len(b): ksPos(j+1) == ksPos(j) + 4 + (b[ksPos(j)+2]*256 + b[ksPos(j)+3])
+//@ spec ksLen(b, p) = b[p+2]*256 + b[p+3]
+//@ spec ksGroup(b, p) = ungrease16(b[p]*256 + b[p+1])
+//@ func (*KeyShareExtension).Write
+//@   property C07 C08 C06
+//@   let n = b[0]*256 + b[1]
+//@   requires e != nil
+//@   modifies e.KeyShares
+//@   ensures n: ret1 == nil ==> ret0 == len(b)
+//@   ensures nerr: ret1 != nil ==> ret0 == 0 && e.KeyShares == old(e.KeyShares)
+//@   ensures framing: ret1 == nil ==> len(b) >= 2 && len(b) >= 2 + n
+//@   ensures empty: len(b) >= 2 && n == 0 ==> ret1 == nil && len(e.KeyShares) == 0
+//@   ensures count: ret1 == nil ==> 5 * len(e.KeyShares) <= n && fresh(e.KeyShares)
+//@   ensures dropped: ret1 == nil ==> forall j in 0..len(e.KeyShares): (e.KeyShares[j].Group != 0x0a0a ==> isnil(e.KeyShares[j].Data)) && (grease16(e.KeyShares[j].Group) ==> e.KeyShares[j].Group == 0x0a0a)
+//@   ensures walk_len: ksWalk(b) && ret1 == nil ==> ksPos(len(e.KeyShares)) == 2 + n
+//@   ensures walk_group: ksWalk(b) && ret1 == nil ==> forall j in 0..len(e.KeyShares): ksLen(b, ksPos(j)) > 0 && e.KeyShares[j].Group == ksGroup(b, ksPos(j))
+//@   ensures walk_data: ksWalk(b) && ret1 == nil ==> forall j in 0..len(e.KeyShares): e.KeyShares[j].Group == 0x0a0a ==> e.KeyShares[j].Data == b[ksPos(j)+4:ksPos(j)+4+ksLen(b, ksPos(j))]
+//@   ensures input: unchanged(b)
+//@   loop 0 invariant len(b) >= 2 + n
+//@   loop 0 invariant arr(clientShares) == arr(b) && off(clientShares) >= off(b) + 2 + 5*len(keyShares) && off(clientShares) + len(clientShares) == off(b) + 2 + n && len(clientShares) >= 0
+//@   loop 0 invariant off(clientShares) + cap(clientShares) == off(b) + cap(b)
+//@   at after call readUint16LengthPrefixed#0: assert data: res ==> arr(ks.Data) == arr(b) && off(ks.Data) + cap(ks.Data) == off(b) + cap(b)
+//@   at after call readUint16LengthPrefixed#0: assert datawalk: ksWalk(b) && res ==> off(ks.Data) == off(b) + ksPos(len(keyShares)) + 4 && len(ks.Data) == ksLen(b, ksPos(len(keyShares)))
+//@   at after call unGREASEUint16#0: assert group: ksWalk(b) ==> res == ksGroup(b, ksPos(len(keyShares)))
+//@   loop 0 invariant fresh(keyShares)
+//@   loop 0 invariant forall j in 0..len(keyShares): (keyShares[j].Group != 0x0a0a ==> isnil(keyShares[j].Data)) && (grease16(keyShares[j].Group) ==> keyShares[j].Group == 0x0a0a)
+//@   loop 0 invariant ksWalk(b) ==> off(clientShares) == off(b) + ksPos(len(keyShares))
+//@   loop 0 invariant ksWalk(b) ==> forall j in 0..len(keyShares): ksLen(b, ksPos(j)) > 0
+//@   loop 0 invariant ksWalk(b) ==> forall j in 0..len(keyShares): keyShares[j].Group == ksGroup(b, ksPos(j))
+//@   loop 0 invariant forall j in 0..len(keyShares): keyShares[j].Group == 0x0a0a ==> arr(keyShares[j].Data) == arr(b)
+//@   loop 0 invariant ksWalk(b) ==> forall j in 0..len(keyShares): keyShares[j].Group == 0x0a0a ==> off(keyShares[j].Data) == off(b) + ksPos(j) + 4
+//@   loop 0 invariant ksWalk(b) ==> forall j in 0..len(keyShares): keyShares[j].Group == 0x0a0a ==> len(keyShares[j].Data) == ksLen(b, ksPos(j))
+//@   loop 0 invariant forall j in 0..len(keyShares): keyShares[j].Group == 0x0a0a ==> off(keyShares[j].Data) + cap(keyShares[j].Data) == off(b) + cap(b)
